@@ -45,7 +45,15 @@ RELEASES = ['1', '2']
 GENERATIONS = 3
 TEMPLATE: typing.Optional[pathlib.Path] = None
 FAIL_KINDS = ['unknown-app', 'bad-content', 'bad-accept', 'missing-column', 'garbage', 'poison', 'poison']
-VBUDGET = 120.0  # virtual seconds allowed after the last arrival
+VBUDGET = 120.0  # virtual seconds allowed after the last arrival - on top of the processing time asked for
+
+
+def vbudget(cfg: dict) -> float:
+    """Bounded liveness: everything is answered within VBUDGET virtual seconds after the last arrival plus the sum
+    of the (injected) processing delays - a single worker serves them one after the other. A resent payload takes as
+    long as the original (the delay belongs to the payload)."""
+    delays = {r['rid']: r['delay'] for r in cfg['requests']}
+    return VBUDGET + sum(delays.get(r.get('prid', r['rid']), 0.0) for r in cfg['requests'])
 
 
 def _train_template(root: pathlib.Path) -> list:
@@ -113,7 +121,7 @@ def gen_cfg(seed: int, faulty: typing.Optional[bool] = None) -> dict:
         apps.append(app)
     nreq = rng.choice([1, 2, 3, 4, 6, 8, 8, 12, 16, 24, 32, 64])
     burst = rng.random() < 0.5
-    storm = rng.random() < 0.12  # swarm: one A/B application hammered by a burst through a wide, busy thread pool
+    storm = rng.random() < float(os.environ.get('C16_STORM', 0.12))  # swarm: one A/B application hammered by a burst through a wide, busy thread pool
     if storm:
         project = rng.choice(PROJECTS)
         variants = rng.sample([(r, g) for r in RELEASES for g in range(1, GENERATIONS + 1)], rng.choice([2, 2, 3]))
@@ -274,7 +282,7 @@ def simulate(cfg: dict, schedule: typing.Optional[list] = None) -> dict:
                 if req.get('cancel') is not None:
                     asyncio.ensure_future(canceller(task, req))
             last = max((r['offset'] for r in cfg['requests']), default=0.0)
-            _, pending = await asyncio.wait(tasks, timeout=last + VBUDGET)
+            _, pending = await asyncio.wait(tasks, timeout=last + vbudget(cfg))
             state['pending'] = len(pending)
             for task in pending:
                 task.cancel()
@@ -343,7 +351,7 @@ def judge(cfg: dict, result: dict) -> list[dict]:
             if result['outcome'].startswith('completed'):
                 out.append({'class': 'lost-response', 'rid': req['rid'],
                             'detail': f'request {req["rid"]} ({req["fail"] or "valid"}) to {app["name"]} got no outcome '
-                                      f'within {VBUDGET} virtual seconds after the last arrival'})
+                                      f'within {vbudget(cfg)} virtual seconds after the last arrival'})
             continue
         if rec['n'] != 1:
             out.append({'class': 'duplicate-response', 'rid': req['rid'], 'detail': f'{rec["n"]} outcomes'})
